@@ -38,6 +38,7 @@ from numpy import (
     delete,
     fromiter,
     indices as array_indices,
+    inf,
     isinf,
     isnan,
     isneginf,
@@ -204,12 +205,26 @@ class Element(ABC):
     def __copy__(self) -> "Element":
         return (
             type(self)()
-            .set_lower_limits(**self.get_lower_limits())
-            .set_upper_limits(**self.get_upper_limits())
+            ._set_limits(self.get_lower_limits(), self.get_upper_limits())
             .set_values(**self.get_values())
             .set_fixed(**self.are_fixed())
             .set_label(self._label)
         )
+
+    def _set_limits(
+        self,
+        lower_limits: Dict[str, float],
+        upper_limits: Dict[str, float],
+    ) -> "Element":
+        # Open up the current limits first so that the new limits can be
+        # applied regardless of how they relate to the current limits (e.g.,
+        # a new lower limit that is above the current upper limit).
+        self.set_lower_limits(**{key: -inf for key in lower_limits})
+        self.set_upper_limits(**{key: inf for key in upper_limits})
+        self.set_lower_limits(**lower_limits)
+        self.set_upper_limits(**upper_limits)
+
+        return self
 
     def __deepcopy__(self, memo: dict) -> "Element":
         ident: int = id(self)
@@ -541,9 +556,11 @@ class Element(ABC):
             String keys corresponding to parameters.
             The values can be anything.
         """
+        self._set_limits(
+            self.get_default_lower_limits(*args, **kwargs),
+            self.get_default_upper_limits(*args, **kwargs),
+        )
         self.set_values(**self.get_default_values(*args, **kwargs))
-        self.set_lower_limits(**self.get_default_lower_limits(*args, **kwargs))
-        self.set_upper_limits(**self.get_default_upper_limits(*args, **kwargs))
         self.set_fixed(**self.are_fixed_by_default(*args, **kwargs))
 
     def reset_parameter(self, key: str):
@@ -555,9 +572,11 @@ class Element(ABC):
         key: str
             A string key corresponding to a parameter.
         """
+        self._set_limits(
+            {key: self.get_default_lower_limit(key)},
+            {key: self.get_default_upper_limit(key)},
+        )
         self.set_values(key, self.get_default_value(key))
-        self.set_lower_limits(key, self.get_default_lower_limit(key))
-        self.set_upper_limits(key, self.get_default_upper_limit(key))
         self.set_fixed(key, self.is_fixed_by_default(key))
 
     def are_fixed(self, *args, **kwargs) -> Dict[str, bool]:
@@ -1675,8 +1694,8 @@ class Container(Element):
                     for k, v in self.get_subcircuits().items()
                 },
             )
-            .set_lower_limits(**self.get_lower_limits())
-            .set_upper_limits(**self.get_upper_limits())
+            ._set_limits(self.get_lower_limits(), self.get_upper_limits())
+            .set_values(**self.get_values())
             .set_fixed(**self.are_fixed())
             .set_label(self._label)
         )
@@ -1694,8 +1713,8 @@ class Container(Element):
                         for k, v in self.get_subcircuits().items()
                     },
                 )
-                .set_lower_limits(**self.get_lower_limits())
-                .set_upper_limits(**self.get_upper_limits())
+                ._set_limits(self.get_lower_limits(), self.get_upper_limits())
+                .set_values(**self.get_values())
                 .set_fixed(**self.are_fixed())
                 .set_label(self._label)
             )
